@@ -239,7 +239,8 @@ fn ref_decodes(payload: &[u8], fill: u8) -> bool {
 pub fn alphabet() -> Vec<Sym> {
     let mut a = Vec::new();
     for (n, k) in [(1u8, 1u8), (2, 1), (2, 2), (3, 1), (3, 2), (3, 3)] {
-        for id in [None, Some(1u8), Some(2u8)] {
+        // 255 is the id most likely to collide with an internal "no id" marker
+        for id in [None, Some(1u8), Some(255u8)] {
             a.push(Sym::Hdr(n, k, id));
         }
     }
@@ -283,7 +284,7 @@ fn exhaustive(ctx: &Ctx, rep: &mut Report, depth: usize, decode_all: bool) {
 fn probe(rep: &mut Report, lk: &Lock) {
     let ids: Vec<Option<u8>> = match &lk.m.st {
         reasm_ref::St::Open { id, .. } => vec![*id, None, Some(1), id.map(|x| x.wrapping_add(1) % 10).or(Some(3))],
-        _ => vec![None, Some(1), Some(2)],
+        _ => vec![None, Some(1), Some(255)],
     };
     let (last, gn) = match &lk.m.st {
         reasm_ref::St::Open { last, n, .. } => (*last, *n),
@@ -344,6 +345,7 @@ fn random_histories(ctx: &Ctx, rep: &mut Report, r: &mut Rng) {
             let id = match r.below(5) {
                 0 => None,
                 1 => last_id, // reuse the id immediately
+                2 if r.chance(1, 3) => Some(*r.pick(&[0u8, 10, 99, 254, 255])),
                 _ => Some(r.below(10) as u8),
             };
             last_id = id;
@@ -418,7 +420,7 @@ fn random_histories(ctx: &Ctx, rep: &mut Report, r: &mut Rng) {
                     // wrong id on one continuation
                     if frags.len() > 1 {
                         let i = r.usize(1, frags.len() - 1);
-                        frags[i].2 = Some(frags[i].2.map_or(4, |x| (x + 1) % 10));
+                        frags[i].2 = Some(frags[i].2.map_or(4, |x| (x % 10 + 1) % 10 + if x >= 10 { 20 } else { 0 }));
                     }
                 }
                 7 => {
@@ -433,7 +435,7 @@ fn random_histories(ctx: &Ctx, rep: &mut Report, r: &mut Rng) {
                 }
                 8 => {
                     // interleave with another group round-robin
-                    let id2 = Some(id.map_or(1, |x| (x + 3) % 10));
+                    let id2 = Some(id.map_or(1, |x| (x % 10 + 3) % 10 + if x >= 10 { 30 } else { 0 }));
                     let mut mixed = Vec::new();
                     for (j, f) in frags.iter().enumerate() {
                         mixed.push(f.clone());
